@@ -82,4 +82,47 @@ def storeTrace (H : Bytes → Bytes) : ObjStore → List StoreOp → List ObjSto
   | _, [] => []
   | s, op :: rest => let s' := storeStep H s op; s' :: storeTrace H s' rest
 
+/-!
+### the transactional store (`objbadger.Txn`, `RepoDir.OpenObjectsTransaction`)
+
+The same `Save*` / `Delete*` calls on a store that only STAGES them: reads made through the
+transaction see the staged operations on top of what is committed, the database itself changes at
+`commit` (`Txn.PartialCommit` / `Txn.Commit`). The staged operations hold VALUES: what a `Save*` was
+given when it was called, whatever its caller does with the buffer afterwards.
+-/
+
+structure TxnStore where
+  /-- what the database holds (what a reader outside the transaction sees) -/
+  base : ObjStore
+  /-- operations staged since the last commit, newest first -/
+  staged : List StoreOp
+
+/-- what a read through the transaction sees -/
+def TxnStore.view (H : Bytes → Bytes) (t : TxnStore) : ObjStore :=
+  t.staged.foldr (fun op s => storeStep H s op) t.base
+
+inductive TxnOp
+  /-- a `Save*` / `Delete*` through the transaction -/
+  | op (o : StoreOp)
+  /-- `PartialCommit` / `Commit`: the staged operations reach the database -/
+  | commit
+
+def txnStep (H : Bytes → Bytes) (t : TxnStore) : TxnOp → TxnStore
+  | .op o => { t with staged := o :: t.staged }
+  | .commit => { base := t.view H, staged := [] }
+
+def txnRun (H : Bytes → Bytes) (t : TxnStore) (ops : List TxnOp) : TxnStore :=
+  ops.foldl (txnStep H) t
+
+/-- the states after each step of a transactional history -/
+def txnTrace (H : Bytes → Bytes) : TxnStore → List TxnOp → List TxnStore
+  | _, [] => []
+  | t, op :: rest => let t' := txnStep H t op; t' :: txnTrace H t' rest
+
+/-- the `Save*` / `Delete*` calls of a transactional history, in order -/
+def TxnOp.storeOps : List TxnOp → List StoreOp
+  | [] => []
+  | .op o :: rest => o :: TxnOp.storeOps rest
+  | .commit :: rest => TxnOp.storeOps rest
+
 end Wrgl
